@@ -823,6 +823,10 @@ class NetCDFWrite(IOWrite):
                     None,
                     size=self.implementation.get_data_size(index_variable),
                 )
+                # The index variable spans the sample dimension,
+                # whose name may have just been changed to make it
+                # unique in the dataset
+                sample_dimension = ncdim
 
             # Create a new index variable
             extra = {"instance_dimension": instance_dimension}
@@ -833,6 +837,7 @@ class NetCDFWrite(IOWrite):
             g["index_variable_sample_dimension"][ncvar] = sample_dimension
         else:
             ncvar = g["seen"][id(index_variable)]["ncvar"]
+            sample_dimension = g["index_variable_sample_dimension"][ncvar]
 
         return sample_dimension
 
@@ -3661,7 +3666,11 @@ class NetCDFWrite(IOWrite):
                     # group structure from the name.
                     sample_ncdim = self._remove_group_structure(sample_ncdim)
 
-                index_ncdim = count_ncdim
+                # The count and index variables span the same
+                # dimension, whose name may have been changed to make
+                # it unique in the dataset when the count variable
+                # was written
+                index_ncdim = g["seen"][id(count)]["ncdims"][0]
                 index = self.implementation.get_index(f)
                 self._write_index_variable(
                     f,
